@@ -1,24 +1,31 @@
 #!/usr/bin/env python3
-# record_trial.py: folds .build/seedtrials.tsv into seeded/<seed>/trial.json (keeps an earlier "caught" record
-# when a later run of the same seed was cut by the deadline).
-import json, os, re, sys
-for line in open("/verif/.build/seedtrials.tsv"):
-    f = line.rstrip("\n").split("\t")
-    if len(f) < 3:
+# record_trial.py: folds the latest trial log of every seed (.build/seedrun/<seed>/<CHECK>.log, written by
+# tools/try_seed.sh) into seeded/<seed>/trial.json.
+import json, os, re, glob
+for d in sorted(glob.glob("/verif/.build/seedrun/*")):
+    seed = os.path.basename(d)
+    if not os.path.isdir("/verif/seeded/" + seed):
         continue
-    seed, ex, verdict = f[0], f[1], f[2]
-    sig = f[3] if len(f) > 3 else ""
-    p = "/verif/seeded/%s/trial.json" % seed
-    old = json.load(open(p)) if os.path.exists(p) else {}
-    m = re.match(r"(C\d+) (quick|thorough): .*exhaustive=(\w+) .*violations=(\d+)", verdict)
-    if not m:
-        continue
-    chk, tier, exh, nv = m.group(1), m.group(2), m.group(3), int(m.group(4))
-    rec = {"check": chk, "tier": tier, "exit": ex, "verdict_line": verdict, "signature": sig.replace("signature=", "").strip(" ;")}
-    if ex == "exit=1" and nv > 0:
-        rec["caught_by"] = "%s %s" % (chk, tier)
-    elif exh == "false":
-        rec["caught_by"] = old.get("caught_by", "run cut by the internal deadline (machine load): inconclusive")
-    else:
-        rec["caught_by"] = old.get("caught_by") if old.get("caught_by", "").startswith("C") else "NOT caught by %s %s" % (chk, tier)
-    json.dump(rec, open(p, "w"), indent=1)
+    for log in glob.glob(d + "/C*.log"):
+        chk = os.path.basename(log)[:-4]
+        txt = open(log, errors="replace").read()
+        m = None
+        for m in re.finditer(r"^(C\d+) (quick|thorough): .*exhaustive=(\w+) .*violations=(\d+)", txt, re.M):
+            pass
+        if not m:
+            continue
+        tier, exh, nv = m.group(2), m.group(3), int(m.group(4))
+        sigs = []
+        for s in re.findall(r"^\s+signature=(.*)$", txt, re.M):
+            if s not in sigs:
+                sigs.append(s)
+        rec = {"check": chk, "tier": tier, "verdict_line": m.group(0), "signatures": sigs[:4]}
+        if nv > 0 and "\nVIOLATION " in "\n" + txt:
+            rec["caught_by"] = "%s %s" % (chk, tier)
+        elif exh == "false":
+            rec["caught_by"] = "inconclusive: run cut by the internal deadline"
+        else:
+            rec["caught_by"] = "NOT caught by %s %s" % (chk, tier)
+        rec["signature"] = "; ".join(sigs[:2])
+        json.dump(rec, open("/verif/seeded/%s/trial.json" % seed, "w"), indent=1)
+        print(seed, "->", rec["caught_by"], "|", rec["signature"][:90])
